@@ -21,6 +21,7 @@ import (
 const modulePath = "github.com/nyaruka/goflow"
 
 type Verifier struct {
+	sweepUses  []string
 	typeinvs   map[string]*TypeInvDef // pkgpath.Type
 	tiWriters  map[string]map[*ssa.Function]bool
 	immutables []ImmutableDef
